@@ -304,7 +304,9 @@ class AsyncTask(futures.FutureBase):
                 # we can glue all the different tasks' tracebacks and make it look like
                 # the error came from there.
                 try:
-                    error._traceback = sys.exc_info()[2]
+                    # (not sys.exc_info()[2]: the failure of a context's pause() / resume()
+                    # hook is recorded after the handler that caught it has ended)
+                    error._traceback = error.__traceback__
                 except Exception:
                     # (an exception class with a _task attribute of its own whose instances
                     # take no new attributes: delivered without the glued traceback)
